@@ -102,6 +102,7 @@ func infoTok(l string) string {
 func casesUciGo(c *caseCtx) {
 	emitZKeys(c, 0)
 	bookChecks(c, "C04")
+	engineAnswerChecks(c)
 	for g := 0; g < c.scale(30, 600); g++ {
 		hash := uint(c.r.Intn(2))
 		quiet := c.r.Intn(4) == 0
@@ -199,4 +200,66 @@ func casesUciGo(c *caseCtx) {
 		c.emit("ucigo hash=%d q=%s :: %s => %s", hash, b01(quiet), strings.Join(lines, " "), strings.Join(obs, " | "))
 	}
 	_ = board.White
+}
+
+// engineAnswerChecks: every bundled engine, driven through the real UCI driver, on positions chosen to
+// starve selective move policies (every legal move a concession, e.p. the only evasion, mate and
+// stalemate): the answer to `go` must be a legal move, and the null move only without a legal move.
+func engineAnswerChecks(c *caseCtx) {
+	ctx := context.Background()
+	fens := append(cramped(c, c.scale(10, 100)), epEvasions(c, c.scale(5, 50))...)
+	fens = append(fens, "7k/5Q2/6K1/8/8/8/8/8 b - - 0 1", "7k/6Q1/6K1/8/8/8/8/8 b - - 0 1",
+		"1r5k/8/8/8/7p/p3p3/P7/K6N w - - 0 1", "k1bq2r1/8/8/8/8/8/7P/7K w - - 0 1")
+	n := 0
+	for _, f := range fens {
+		// also the colour-mirrored position
+		for _, ff := range []string{f, mirrorFEN(f)} {
+			pos, turn, _, _, err := fen.Decode(ff)
+			if err != nil || pos == nil {
+				continue
+			}
+			legal := map[string]bool{}
+			for _, m := range legalMoves(pos, turn) {
+				legal[uciMove(m)] = true
+			}
+			for _, name := range []string{"morlock", "turochamp", "bernstein", "sargon"} {
+				e, opts := bundledEngine(ctx, name, uint(c.r.Intn(2)), 0, uint(1+c.r.Intn(2)), false, 1)
+				in := make(chan string, 4)
+				_, out := uci.NewDriver(ctx, e, in, opts...)
+				in <- "position fen " + ff
+				in <- "go"
+				best := ""
+				timeout := time.After(60 * time.Second)
+			wait:
+				for {
+					select {
+					case l, ok := <-out:
+						if !ok {
+							break wait
+						}
+						if strings.HasPrefix(l, "bestmove") {
+							fs := strings.Fields(l)
+							if len(fs) > 1 {
+								best = fs[1]
+							}
+							break wait
+						}
+					case <-timeout:
+						break wait
+					}
+				}
+				close(in)
+				n++
+				switch {
+				case best == "":
+					fmt.Printf("IMPLVIOL uci position fen %s; go :: %s gave no bestmove prop=C04 key=no-answer\n", ff, name)
+				case best == "0000" && len(legal) > 0:
+					fmt.Printf("IMPLVIOL uci position fen %s; go :: %s answered bestmove 0000 although the position has %d legal moves prop=C04 key=null-move\n", ff, name, len(legal))
+				case best != "0000" && !legal[best]:
+					fmt.Printf("IMPLVIOL uci position fen %s; go :: %s answered bestmove %s, which is not legal prop=C04 key=illegal\n", ff, name, best)
+				}
+			}
+		}
+	}
+	fmt.Printf("COUNT special-positions %d\n", n)
 }
